@@ -70,6 +70,7 @@ type Result struct {
 	Halt      string     `json:"halt,omitempty"`
 	Events    string     `json:"events,omitempty"` // digest of consensus-relevant response fields
 	Value     string     `json:"value,omitempty"`
+	TmErr     string     `json:"tmerr"` // error of Tendermint's UpdateWithChangeSet on the returned updates ("" = applied)
 }
 
 func coins(x int64) sdk.Coins { return sdk.NewCoins(sdk.NewCoin(sdk.DefaultStakeDenom, sdk.NewInt(x))) }
@@ -217,6 +218,9 @@ type Runner struct {
 	Delivered [][]byte
 	ROEntropy int64
 	Halted  string
+	// TM is a real Tendermint validator set to which every returned update batch is applied
+	// with Tendermint's own UpdateWithChangeSet (oracle for "can be applied", C05)
+	TM *tmtypes.ValidatorSet
 	Tick    int64 // current block time in ticks
 }
 
@@ -300,12 +304,20 @@ func (r *Runner) Exec(act Action) (res Result) {
 	a := r.A
 	res.Class = "n/a"
 	res.Updates = [][2]int64{}
+	defer func() {
+		// a panic inside a read-only call is that call's own failure (ABCI would surface it to the
+		// caller), not a dead consensus node
+		if res.Class == "halt" && (act.A == "Query" || act.A == "CheckTx" || act.A == "Simulate") {
+			res.Class = "ro-panic"
+		}
+	}()
 	defer recoverHalt(&res)
 	switch act.A {
 	case "InitChain":
 		out := a.InitChain()
 		res.Updates, res.UpdDup = a.updates(out.Validators)
 		res.Events = evDigest(res.Updates)
+		res.TmErr = r.applyTM(out.Validators)
 	case "BeginBlock":
 		r.Tick += act.Dt
 		h := a.B.LastBlockHeight() + 1
@@ -391,6 +403,7 @@ func (r *Runner) Exec(act Action) (res Result) {
 		out := a.B.EndBlock(abci.RequestEndBlock{Height: a.Hdr.Height})
 		res.Updates, res.UpdDup = a.updates(out.ValidatorUpdates)
 		res.Events = evDigest(res.Updates, evStr(out.Events))
+		res.TmErr = r.applyTM(out.ValidatorUpdates)
 	case "Commit":
 		out := a.B.Commit()
 		res.Hash = hex.EncodeToString(out.Data)
@@ -410,6 +423,24 @@ func (r *Runner) Exec(act Action) (res Result) {
 		panic("unknown action " + act.A)
 	}
 	return res
+}
+
+// applyTM feeds an update batch to Tendermint's own validator-set code.
+func (r *Runner) applyTM(us []abci.ValidatorUpdate) string {
+	if len(us) == 0 {
+		return ""
+	}
+	changes, err := tmtypes.PB2TM.ValidatorUpdates(us)
+	if err != nil {
+		return "pb2tm: " + err.Error()
+	}
+	if r.TM == nil {
+		r.TM = &tmtypes.ValidatorSet{}
+	}
+	if err := r.TM.UpdateWithChangeSet(changes); err != nil {
+		return err.Error()
+	}
+	return ""
 }
 
 func trim(s string) string {
